@@ -167,6 +167,62 @@ def _shard(task):
     return st
 
 
+def _run_tasks(tasks, nprocs):
+    """run the shards in worker processes; a worker that dies (segfault of the interpreter, OOM kill) must neither hang the
+    check nor take the other shards with it: shards lost with a broken pool are run again, each in a process of its own"""
+    from concurrent.futures import ProcessPoolExecutor, as_completed
+    from concurrent.futures.process import BrokenProcessPool
+    ctx = multiprocessing.get_context('fork')
+    results, lost = [], []
+    with ProcessPoolExecutor(max_workers=min(nprocs, len(tasks)), mp_context=ctx) as ex:
+        futs = {ex.submit(_shard, t): t for t in tasks}
+        for f in as_completed(futs):
+            try:
+                results.append(f.result())
+            except BrokenProcessPool:
+                lost.append(futs[f])
+    died = []
+    if lost:
+        execs = [(t, ProcessPoolExecutor(max_workers=1, mp_context=ctx)) for t in lost]
+        futs = [(t, ex, ex.submit(_shard, t)) for t, ex in execs]
+        for t, ex, f in futs:
+            try:
+                results.append(f.result())
+            except BrokenProcessPool:
+                died.append(t)
+            finally:
+                ex.shutdown(wait=False, cancel_futures=True)
+    return results, died
+
+
+def _shrink_task(args):
+    modname, sub_name, case, kind, max_evals, max_seconds, active = args
+    core.ACTIVE_KNOWN.clear()
+    core.ACTIVE_KNOWN.update(active)
+    mod = importlib.import_module('props.' + modname)
+    sub = mod.SUBS[sub_name]
+    small, n_ev = core.shrink(sub, case, kind, max_evals=max_evals, max_seconds=max_seconds)
+    out, herr = safe_run(sub, small)
+    if out is None or out.ok or out.kind != kind:
+        return None
+    return small, n_ev, out.kind, out.detail
+
+
+def _shrink_in_child(modname, sub_name, case, kind, max_evals, max_seconds):
+    """shrinking re-runs hundreds of failing variants; done in a child process so that a variant which brings the interpreter
+    down costs the shrinking, not the report"""
+    from concurrent.futures import ProcessPoolExecutor
+    ctx = multiprocessing.get_context('fork')
+    ex = ProcessPoolExecutor(max_workers=1, mp_context=ctx)
+    try:
+        f = ex.submit(_shrink_task, (modname, sub_name, case, kind, max_evals, max_seconds, sorted(core.ACTIVE_KNOWN)))
+        return f.result(timeout=max_seconds * 3 + 300)
+    except Exception:       # noqa  (BrokenProcessPool, timeout)
+        return None
+    finally:
+        ex.shutdown(wait=False, cancel_futures=True)
+
+
 def _print(*a):
     # (details may quote arbitrary generated text, lone surrogates included)
     print(*[x.encode('utf-8', 'backslashreplace').decode('utf-8') if isinstance(x, str) else x for x in a])
@@ -289,12 +345,12 @@ def main(argv=None):
     }
     failures = {}   # (sub, kind) -> (size, case, detail)
     nprocs = int(os.environ.get('VERIF_PROCS', '16'))
-    ctx = multiprocessing.get_context('fork')
     results = []
     if tasks:
-        with ctx.Pool(min(nprocs, len(tasks))) as pool:
-            for st in pool.imap_unordered(_shard, tasks):
-                results.append(st)
+        results, died = _run_tasks(tasks, nprocs)
+        for t in died:
+            harness_errors.append('the worker process running sub %s shard %d died twice (killed by a signal / interpreter crash); '
+                                  'its cases are not part of this result' % (t[1], t[4]))
     results.sort(key=lambda s: (s['sub'], s['shard']))
     for st in results:
         ps = agg['per_sub'].setdefault(st['sub'], {'evaluations': 0, 'distinct_nontrivial': set(),
@@ -396,14 +452,15 @@ def main(argv=None):
     max_shrink = 300 if tier == 'quick' else 1500
     for (sub_name, kind), (size, case, detail) in sorted(failures.items(), key=lambda kv: kv[1][0])[:6]:
         sub = mod.SUBS[sub_name]
-        if kind in ('hang', 'memory'):
-            small, n_ev, out = case, 0, None
-        else:
-            small, n_ev = core.shrink(sub, case, kind, max_evals=max_shrink,
-                                      max_seconds=40 if tier == 'quick' else 240)
-            out, herr = safe_run(sub, small)
-        if out is None or out.ok or out.kind != kind:
-            # not reproducible deterministically -> still report the original
+        small, n_ev, out = case, 0, None
+        if kind not in ('hang', 'memory'):
+            res = _shrink_in_child(PROPS[prop_id], sub_name, case, kind, max_shrink, 40 if tier == 'quick' else 240)
+            if res is not None:
+                small, n_ev = res[0], res[1]
+                out = core.Outcome()
+                out.fail(res[2], res[3])
+        if out is None:
+            # not reproducible deterministically (or the shrinking process died) -> still report the original
             small = case
             out = core.Outcome()
             out.fail(kind, detail)
